@@ -36,6 +36,19 @@ CHECKS = {
                      "ratios are compared with single-point runs; every sequence with its negation.",
                 note="Reference in mc/refs/hcm_nonlinear.py is trusted as the reading of the guideline procedure (index-based Clormann-Seeger memory rules).",
                 ref="3 C05"),
+    "C13": dict(cat="exploration", tech="exhaustive enumeration of small index layouts x operand kinds against a dict look-up reference; deep operand snapshot before/after",
+                text="All pairs of 9 index layouts (named, unnamed, two-level, swapped level order, partially shared) with 1-3 rows in all row orders x "
+                     "{Series, DataFrame} object x {scalar, 0-d, list, ndarray, Series, DataFrame} parameter are broadcast by the real Broadcaster and compared "
+                     "with a dict look-up reference (identical result indices, per-row values or NaN, completeness); operands are deep-snapshotted before and "
+                     "after; per-element Woehler curves x per-scenario loads are compared with scalar evaluation. Layouts outside the quantifier are counted, not judged.",
+                note="Unnamed-level sharing and rows of the smaller operand whose key is missing in the larger are outside the property and only counted.",
+                ref="3 C13"),
+    "C17": dict(cat="exploration", tech="exhaustive enumeration of the integer tensor lattice x the 24 cube rotations x scales against an independent Jacobi eigen-solver",
+                text="All 15 625 symmetric tensors with components in {-2..2} (thorough: also {-3..3}) x 24 exact cube rotations + rational rotations x exact and inexact "
+                     "scales are evaluated by every equivalent-stress function (scalar, column, accessor) and compared with the definitions from eigenvalues of an "
+                     "own Jacobi solver (cross-checked with eigvalsh and the characteristic polynomial); inequalities, signed variants and the +1 convention included.",
+                note="abs-max sign not judged where lambda_max = -lambda_min exactly on non-diagonal tensors (LAPACK rounding); lattice bounded.",
+                ref="3 C17"),
     "C20": dict(cat="model_checking", tech="explicit-state BFS over exporter call histories (incl. failing calls) on real HDF5 files, dict reference model, twin comparison for failed calls",
                 text="All sequences of exporter events (add_geometry for 11-14 small meshes in id/row-order variants, duplicate and unsupported calls that must raise, "
                      "node/element sets valid and with foreign ids, NODE / ELEMENT_NODAL variables, second state, bad column) to depth 3 (quick) / 4 (thorough) are "
